@@ -204,6 +204,58 @@ def h_window_lemma(ex, sampled):
     return None
 
 
+def h_difference_lemma(ex):
+    """difference_kernel for EVERY window width, start, step and stride: row i takes x[start + i*stride + step] -
+    x[start + i*stride], both columns inside the window, and the number of rows is exactly the number of differences that
+    fit (one arbitrary iteration, sizes symbolic)"""
+    import ast
+    import os
+    from harness.C07_plan import _OneIteration
+    path = os.path.join(loader.REPO, "vectorizers", "_window_kernels.py")
+    tree = ast.parse(open(path).read())
+    fdef = [n for n in tree.body if isinstance(n, ast.FunctionDef) and n.name == "difference_kernel"][0]
+    fdef = ast.fix_missing_locations(_OneIteration({}).visit(fdef))
+    n_cols = fresh_int("n_cols", 1, 10 ** 6)
+    start = fresh_int("start", 0, 10 ** 6)
+    step = fresh_int("step", 1, 10 ** 6)
+    stride = fresh_int("stride", 1, 10 ** 6)
+    assume(start + step < n_cols)         # at least one difference fits (the transformer's own validation requires it)
+    register("n_cols", n_cols); register("start", start); register("step", step); register("stride", stride)
+    writes, shapes, hav = [], [], {}
+
+    class _Res:
+        def __setitem__(self, k, v):
+            writes.append((k, v))
+
+    class _NP:
+        ceil = staticmethod(np.ceil)
+
+        @staticmethod
+        def zeros(shape, dtype=None):
+            shapes.append(shape)
+            return _Res()
+
+    def _havoc(name, *a):
+        v = fresh_int("iter_" + name)
+        assume(sand(v >= 0, v < a[0]))
+        hav[name] = v
+        return v
+    ns = {"np": _NP, "_havoc": _havoc, "_typed": lambda a, b: b, "int": loader.INJECT["int"]}
+    exec(compile(ast.Module(body=[fdef], type_ignores=[]), path, "exec"), ns)
+    call(ns["difference_kernel"], n_cols, start, step, stride)
+    check("one row: one -1 and one +1", len(writes) == 2 and len(shapes) == 1)
+    if len(writes) != 2 or len(shapes) != 1:
+        return None
+    n_diff = shapes[0][0]
+    i = hav["i"]
+    (k0, v0), (k1, v1) = writes
+    check("row i has -1 at column start + i*stride and +1 at column start + i*stride + step, both inside the window",
+          sand(k0[0] == i, k1[0] == i, k0[1] == start + i * stride, k1[1] == start + i * stride + step, k0[1] >= 0, k1[1] < n_cols) and v0 == -1 and v1 == 1)
+    check("the number of rows is the number of differences that fit",
+          sand(n_diff >= 1, start + (n_diff - 1) * stride + step < n_cols, start + n_diff * stride + step >= n_cols))
+    return None
+
+
 def cases(tier):
     cs = []
     if tier == "quick":
@@ -221,6 +273,8 @@ def cases(tier):
                        dict(L=L, ncol=nc, sample_form=sf, kernel=k), replay="C19:replay_sliding", witness="C19:witness_sliding",
                        bounds={"L": L, "columns": nc or "1-d", "width": "1..4 symbolic", "stride": "1..3 symbolic", "pad_width": "0..2 symbolic",
                                "window_sample": sf, "kernel": k, "values": "reals"}, functions=FUNCS, max_witness=4))
+    cs.append(Case("difference_lemma[all sizes]", h_difference_lemma, {}, replay="C19:replay_difference_lemma", functions=["_window_kernels.difference_kernel"],
+                   fast_ms=3000, bounds={"n_cols, start, step, stride": "symbolic up to 10^6, start + step < n_cols"}))
     for sampled in (False, True):
         cs.append(Case("window_lemma[all sizes,%s]" % ("sampled" if sampled else "full window"), h_window_lemma, dict(sampled=sampled),
                        replay="C19:replay_window_lemma", functions=FUNCS[:1], fast_ms=3000,
